@@ -1,4 +1,5 @@
 import random
+from decimal import Decimal
 from typing import Any, Optional, cast
 
 from flamapy.core.models import VariabilityModel
@@ -83,14 +84,20 @@ def get_random_value_from_domain(domain: Domain) -> Any:
     return random_value
 
 
+def fraction_digits(value: Any) -> int:
+    """Number of decimal places of a bound, also when it prints in exponent notation (1e-07)."""
+    exponent = Decimal(str(value)).as_tuple().exponent
+    return max(0, -exponent) if isinstance(exponent, int) else 0
+
+
 def get_random_value_from_ranges(ranges: list[Range]) -> Any:
     """Generate a random value from a list of ranges.
     NOTE: This is not uniform if there are more than one range.
     """
     random_range = random.choice(ranges)
     if isinstance(random_range.min_value, float) or isinstance(random_range.max_value, float):
-        min_digits = str(random_range.min_value)[::-1].find('.')
-        max_digits = str(random_range.max_value)[::-1].find('.')
+        min_digits = fraction_digits(random_range.min_value)
+        max_digits = fraction_digits(random_range.max_value)
         digits = max(min_digits, max_digits)
         value = round(random.uniform(random_range.min_value, random_range.max_value), digits)
     elif isinstance(random_range.min_value, int) and isinstance(random_range.max_value, int):
